@@ -49,6 +49,17 @@ pub mod sync {
         /// sender and receiver through a raw, intentionally leaked pointer (single-threaded by construction).
         pub const QCAP: usize = 4;
         struct Chan<T> { s0: Option<T>, s1: Option<T>, s2: Option<T>, s3: Option<T>, len: usize, cap: usize, rx_alive: bool }
+        impl<T> Chan<T> {
+            /// slot `len` is empty by the queue invariant: written WITHOUT dropping the old content (an
+            /// assignment would run the drop glue of `Option<T>` on a heap value whose tag CBMC does not fold -
+            /// for T = ServerMessage that is the drop glue of every variant, on every send)
+            fn put(&mut self, t: T) {
+                unsafe {
+                    if self.len == 0 { core::ptr::write(&mut self.s0, Some(t)); } else if self.len == 1 { core::ptr::write(&mut self.s1, Some(t)); } else if self.len == 2 { core::ptr::write(&mut self.s2, Some(t)); } else { core::ptr::write(&mut self.s3, Some(t)); }
+                }
+                self.len += 1;
+            }
+        }
         pub struct Sender<T> { chan: *mut Chan<T> }
         pub struct Receiver<T> { chan: *mut Chan<T> }
         unsafe impl<T: Send> Send for Sender<T> {}
@@ -73,8 +84,7 @@ pub mod sync {
                 let c = unsafe { &mut *self.chan };
                 if !c.rx_alive { return Err(error::TrySendError::Closed(t)); }
                 if c.len >= c.cap { return Err(error::TrySendError::Full(t)); }
-                if c.len == 0 { c.s0 = Some(t); } else if c.len == 1 { c.s1 = Some(t); } else if c.len == 2 { c.s2 = Some(t); } else { c.s3 = Some(t); }
-                c.len += 1;
+                c.put(t);
                 Ok(())
             }
             /// Model: a send on a full queue never completes. The returned value is a `Future` (for code
@@ -87,12 +97,19 @@ pub mod sync {
         }
         pub struct SendFut<'a, T> { tx: &'a Sender<T>, t: Option<T> }
         impl<'a, T> SendFut<'a, T> {
-            pub fn now(mut self) -> Result<(), error::SendError<T>> {
-                match self.tx.try_send(self.t.take().expect("polled after completion")) {
-                    Ok(()) => Ok(()),
-                    Err(error::TrySendError::Closed(t)) => Err(error::SendError(t)),
-                    Err(error::TrySendError::Full(_)) => crate::never_completes(),
+            pub fn now(self) -> Result<(), error::SendError<T>> {
+                // flags first, the message is never wrapped into an intermediate Result (which CBMC would
+                // not fold for a large enum T): with a live receiver the Err path is statically dead
+                let SendFut { tx, t } = self;
+                let t = match t { Some(t) => t, None => crate::never_completes() };
+                let c = unsafe { &mut *tx.chan };
+                if !c.rx_alive { return Err(error::SendError(t)); }
+                if c.len >= c.cap {
+                    core::mem::forget(t);
+                    crate::never_completes()
                 }
+                c.put(t);
+                Ok(())
             }
         }
         impl<'a, T> Unpin for SendFut<'a, T> {}
@@ -126,10 +143,15 @@ pub mod sync {
             pub fn try_recv(&mut self) -> Result<T, error::TryRecvError> {
                 let c = unsafe { &mut *self.chan };
                 if c.len == 0 { return Err(error::TryRecvError::Empty); }
-                let head = c.s0.take();
-                c.s0 = c.s1.take();
-                c.s1 = c.s2.take();
-                c.s2 = c.s3.take();
+                // moves without drop glue (see `put`)
+                let head = unsafe {
+                    let head = core::ptr::read(&c.s0);
+                    core::ptr::write(&mut c.s0, core::ptr::read(&c.s1));
+                    core::ptr::write(&mut c.s1, core::ptr::read(&c.s2));
+                    core::ptr::write(&mut c.s2, core::ptr::read(&c.s3));
+                    core::ptr::write(&mut c.s3, None);
+                    head
+                };
                 c.len -= 1;
                 match head { Some(t) => Ok(t), None => Err(error::TryRecvError::Empty) }
             }
@@ -357,12 +379,30 @@ pub trait Now: Sized {
 }
 impl<T> Now for T {}
 
+/// de-sugared `async { .. }` that is awaited in place: `.now()` runs the block
+pub struct LazyNow<F>(F);
+pub fn lazy_now<R, F: FnOnce() -> R>(f: F) -> LazyNow<F> {
+    LazyNow(f)
+}
+impl<R, F: FnOnce() -> R> LazyNow<F> {
+    pub fn now(self) -> R {
+        (self.0)()
+    }
+}
+
 /// `spawn` registers the task; it runs only when the harness scheduler says so
 /// (`model_tasks::run_next`). Tasks are plain closures after the de-sugaring.
 pub mod model_tasks {
-    static mut TASKS: [Option<Box<dyn FnOnce()>>; 4] = [None, None, None, None];
+    /// The task closures take a dummy argument: CBMC resolves a virtual call (e.g. the drop of a
+    /// `Box<dyn Error>` inside a WorterbuchError whose variant it could not fold) to EVERY address-taken function
+    /// of a compatible signature; `call_once(self_ptr)` of a `dyn FnOnce()` is compatible with
+    /// `drop_in_place(ptr)`, so every such drop executed every spawned task body (measured: 20 GB / no end).
+    /// `call_once(self_ptr, Tok)` is not.
+    #[derive(Clone, Copy)]
+    pub struct Tok(pub u8, pub u8);
+    static mut TASKS: [Option<Box<dyn FnOnce(Tok)>>; 4] = [None, None, None, None];
     static mut SPAWNED: usize = 0;
-    pub fn register(f: Box<dyn FnOnce()>) {
+    pub fn register(f: Box<dyn FnOnce(Tok)>) {
         unsafe {
             let tasks = &mut *core::ptr::addr_of_mut!(TASKS);
             let mut i = 0;
@@ -403,7 +443,7 @@ pub mod model_tasks {
             let mut i = 0;
             while i < 4 {
                 if let Some(f) = tasks[i].take() {
-                    f();
+                    f(Tok(0, 0));
                     return true;
                 }
                 i += 1;
@@ -413,7 +453,7 @@ pub mod model_tasks {
     }
 }
 pub fn spawn<F: FnOnce() -> R + 'static, R>(f: F) -> task::JoinHandle<R> {
-    model_tasks::register(Box::new(move || {
+    model_tasks::register(Box::new(move |_t: model_tasks::Tok| {
         f();
     }));
     task::JoinHandle(core::marker::PhantomData)
